@@ -190,6 +190,10 @@ func (ex *Executor) matchRow(st *State, fr *Frame, r *Row, evs []*Event) (*Term,
 			if e.Kind != "send" {
 				return nil, false, nil
 			}
+			if p.Kind == "send?" && !(e.InSelect && e.Guarded) {
+				// send? is the cancel-guarded send: a plain send does not match
+				return nil, false, nil
+			}
 			if err := chanEq(p.Chan, e.Chan); err != nil {
 				return nil, false, err
 			}
